@@ -69,14 +69,51 @@ class RefDir:
         self.order.append(name)
         self.dims[dim_key(dim)] = name
         if ref_sym is not None:
-            self.add_unit(ref_sym, name, Fraction(1), kind='ref')
+            bvec = None
+            if not base:
+                bvec = {}
+                for tn, e in merged:
+                    rs = self.types[tn]['ref']
+                    if rs is None:      # not generated (see DESIGN)
+                        bvec = None
+                        break
+                    bvec = dim_add(bvec, self.units[rs]['bvec'], e)
+            self.add_unit(ref_sym, name, Fraction(1), kind='ref',
+                          bvec=bvec, num=Fraction(1))
         return t
 
-    def add_unit(self, sym, tname, factor, kind, vec=None):
+    def add_unit(self, sym, tname, factor, kind, vec=None, num=None,
+                 bvec=None):
+        """`bvec`/`num`: expansion into base units (units without a
+        definition) with numeric factor; derived here when not given."""
+        if bvec is None:
+            bvec, num = {sym: 1}, Fraction(1)
         self.units[sym] = {'sym': sym, 'type': tname, 'factor': factor,
-                           'kind': kind, 'vec': vec}
+                           'kind': kind, 'vec': vec, 'bvec': bvec,
+                           'num': num}
         self.uorder.append(sym)
         self.types[tname]['units'].append(sym)
+
+    def expand(self, items, k=None):
+        """(base-unit vector, numeric factor) of a product of units."""
+        num = Fraction(1) if k is None else num_value(k)
+        bvec = {}
+        for sym, e in items:
+            u = self.units[sym]
+            num *= u['num'] ** e
+            bvec = dim_add(bvec, u['bvec'], e)
+        return bvec, num
+
+    def result_exists(self, bvec, num):
+        """Is a unit declared that the product (bvec, num) resolves to:
+        one with exactly this expansion, or one with this base-unit vector
+        and no numeric factor?"""
+        key = dim_key(bvec)
+        for u in self.units.values():
+            if dim_key(u['bvec']) == key and (u['num'] == 1 or
+                                              u['num'] == num):
+                return True
+        return False
 
     def fresh(self):
         self.counter += 1
@@ -462,18 +499,25 @@ def apply(model: RefDir, act, info=None):
         model.add_type(act['name'], False, ref, q,
                        [tuple(i) for i in act['items']])
     elif a == 'scaled_unit':
-        f = model.units[act['parent']]['factor'] * num_value(act['k'])
-        model.add_unit(act['sym'], act['type'], f, 'scaled')
+        p = model.units[act['parent']]
+        f = p['factor'] * num_value(act['k'])
+        model.add_unit(act['sym'], act['type'], f, 'scaled',
+                       bvec=dict(p['bvec']),
+                       num=p['num'] * num_value(act['k']))
     elif a == 'term_unit':
+        bvec, num = model.expand(act['items'], act['k'])
         model.add_unit(act['sym'], act['type'],
-                       model.term_factor(act['items'], act['k']), 'term')
+                       model.term_factor(act['items'], act['k']), 'term',
+                       bvec=bvec, num=num)
     elif a == 'derive_unit':
         t = model.types[act['type']]
         items = [(u, e) for u, (_, e) in zip(act['units'], t['items'])]
         sym = act['sym'] if act['sym'] is not None else info['sym']
         f = model.term_factor(items) if t['ref'] is not None else None
+        bvec, num = model.expand(items)
         model.add_unit(sym, act['type'], f, 'derived',
-                       vec=None if f is not None else items)
+                       vec=None if f is not None else items,
+                       bvec=bvec, num=num)
     elif a == 'plain_unit':
         model.add_unit(act['sym'], act['type'], None, 'plain')
     elif a == 'currency_reg':
@@ -697,5 +741,12 @@ def seed_catalogue(model: RefDir, env: Env):
             else:
                 amt = (ONE * u).convert(ref).amount
                 f = Fraction(amt.numerator, amt.denominator)
-            model.add_unit(u.symbol, name, f, 'catalogue')
+            bvec, num = {}, Fraction(1)
+            for elem, e in u.normalized_definition:
+                if hasattr(elem, 'symbol'):
+                    bvec[elem.symbol] = bvec.get(elem.symbol, 0) + e
+                else:
+                    num *= Fraction(elem.numerator, elem.denominator) ** e
+            model.add_unit(u.symbol, name, f, 'catalogue', bvec=bvec,
+                           num=num)
             env.units[u.symbol] = u
